@@ -399,7 +399,9 @@ STATES5 = [("missing",), ("empty",), ("dir",), ("unreadable",), ("garbage", 1)]
 GOOD_TABLE = "usd,usdollar,1.0\neur,euro,0.9\ngbp,britishpound,0.8\nxyz,xyzcoin,2.5\n"
 
 NUM_VALUES = ["3", "0", "12", "-1", "-0", "abc", "", "1_0", "1__0", "_1", "+5", "+-5", "2147483647", "2147483648",
-              "99999999999999999999", "1.5", "0x10", "1e3", "  7  ", "3 4", "true"]
+              "99999999999999999999", "1.5", "0x10", "1e3", "  7  ", "3 4", "true",
+              # spellings float() accepts but int() does not, incl. the non-finite ones
+              "inf", "-Infinity", "nan", "1e999", "8.0", "1e-999", "0.0"]
 BOOL_VALUES = ["true", "false", "True", "FALSE", "yes", "1", "", "true false"]
 TEXT_VALUES = ["a", "a=b", "=", "==x=", "x  y", "gbp", "usd", "zzz", ">>", "ka>", "café"]
 KEYS = [("precision", "num"), ("font-size", "num"), ("save-history", "bool"), ("prompt", "text"),
